@@ -1122,6 +1122,12 @@ def parse_args(*args, **kwargs):
 
 
 def main(*args, **kwargs):
+    # Bitstreams may contain arbitrarily large (exp-golomb coded) integers
+    # which must still be displayed. Newer Python versions otherwise refuse to
+    # convert integers with more than a few thousand digits into strings.
+    if hasattr(sys, "set_int_max_str_digits"):
+        sys.set_int_max_str_digits(0)
+
     args = parse_args(*args, **kwargs)
 
     viewer = BitstreamViewer(
